@@ -184,7 +184,12 @@ MATCHERS = {"copyout-array-not-fully-written": m_copyout_not_fully_written}
 def run(tier):
     core.setup_psyclone_env()
     out = core.Outcome("C13", tier, "model_checking", matchers=MATCHERS)
-    fam = sem.TransFamily("C13", dom=DOM, fills=FILLS, live=LIVE, apps=apps)
+    dom, fills = DOM, FILLS
+    if tier != "quick":
+        dom = [("n", [0, 1, 2, 3, 4]), ("m", [1, 2, 3]), ("t", [[1, 2], [-3, 2]]), ("u", [[3, 1]]),
+               ("flag", [True, False])]
+        fills = [1, 2, 3, 4]
+    fam = sem.TransFamily("C13", dom=dom, fills=fills, live=LIVE, apps=apps)
     results = sem.build_family(fam, items(tier))
     for r in results:
         if r["status"] == "accepted":
